@@ -555,3 +555,31 @@ Proof.
     + exfalso. apply resolution_order_err in E. apply cycle_report_cycle in E.
       destruct E as [x Hx]. eapply acyclic_no_cycle; eassumption.
 Qed.
+
+(** The same, as positions in the list: every definition with dependencies is listed, after
+    every definition it depends on that has dependencies itself. *)
+Theorem resolution_order_topological defs ord :
+  resolution_order defs = Ok ord ->
+  (forall n, In n ord <-> In n (map d_name defs) /\ exists c, edge (graph_of defs) n c) /\
+  (forall l1 n l2 c, ord = l1 ++ n :: l2 -> edge (graph_of defs) n c ->
+                     In c l1 \/ forall c', ~ edge (graph_of defs) c c').
+Proof.
+  intro H. apply resolution_order_ok in H. destruct H as (_ & Ho & Hall). split.
+  - intro n. rewrite Hall. unfold has_children, edge.
+    destruct (children (graph_of defs) n) as [|[c sp] r]; split; intros [Hn Hc]; split; auto.
+    + discriminate.
+    + destruct Hc as [c []].
+    + exists c. left. reflexivity.
+  - intros l1 n l2 c Heq Hc. subst ord. destruct (ordered_split _ _ _ _ _ Ho c Hc) as [H|[[]|H]].
+    + left. exact H.
+    + right. intros c' Hc'. unfold edge in Hc'. rewrite H in Hc'. destruct Hc'.
+Qed.
+
+Theorem resolution_order_err_cycle defs e :
+  resolution_order defs = Err e ->
+  (exists spans, e = NonterminalDefinitionsCycle spans) /\ exists x, reach (graph_of defs) x x.
+Proof.
+  intro H. apply resolution_order_err in H. split.
+  - destruct H as (r & rsp & rest & c & sp & _ & _ & _ & _ & _ & Heq). eexists. exact Heq.
+  - eapply cycle_report_cycle. exact H.
+Qed.
